@@ -217,6 +217,36 @@ def one(arg):
             rec('select#post.union_of_the_n_best_of_each_measure', set(r2[1]) == set(e1) | set(e2), 'measures [kruskal, R]: returned %r, per-measure recomputation %r and %r' % (list(r2[1]), e1, e2), dict(default_measures=False, dtype='float'))
         elif r2[0] != 'ok':
             rec('select#raises.nothing_on_valid_input', False, 'two measures: %s' % r2[0], dict(default_measures=False))
+        # the returned list is ordered by the LAST requested association measure ("Ranks features based on last provided measure of the list")
+        if r2[0] == 'ok' and not a1 and not a2 and len(r2[1]) > 1:
+            _, _, v_eta = oracle_select(X, y, quant, 'float', len(quant), 1, eta)
+            seq = [v_eta.get(f) for f in r2[1]]
+            if all(v is not None for v in seq) and all(abs(a - b) > 1e-9 for a, b in zip(seq, seq[1:])):
+                rec('select#post.ordered_by_the_last_requested_measure', all(a > b for a, b in zip(seq, seq[1:])), 'measures [kruskal, R]: returned %r with R values %r (not decreasing)' % (list(r2[1]), [round(v, 4) for v in seq]), dict(default_measures=False, dtype='float'))
+        # user-supplied filter lists: [pearson_filter] alone, and the chain [spearman_filter, pearson_filter] (each filter works on what the previous one left)
+        from AutoCarver.selectors.filters import pearson_filter, spearman_filter
+        def greedy(ranked, kind_):
+            kept = []; amb = False
+            for f in ranked:
+                bad = False
+                for g in kept:
+                    c = abs(X[[f, g]].corr(kind_).iloc[0, 1]); c = 0.0 if math.isnan(c) else c
+                    if abs(c - tc) < 1e-9: amb = True
+                    if c > tc: bad = True; break
+                if not bad: kept.append(f)
+            return kept, amb
+        measure0 = kruskal_h if kind == 'ClassificationSelector' else None
+        if measure0 is not None and tc < 1:
+            ranked_all, amb0, _ = oracle_select(X, y, quant, 'float', len(quant), 1, measure0)
+            for flist, kinds in (([pearson_filter], ['pearson']), ([spearman_filter, pearson_filter], ['spearman', 'pearson'])):
+                r5 = outcome(lambda: make_selector(kind, quant, [], n_best, thresh_corr=tc, quantitative_filters=flist).select(X, y))
+                cur = list(ranked_all); amb = amb0
+                for kd in kinds:
+                    cur, a_ = greedy(cur, kd); amb = amb or a_
+                if r5[0] == 'ok' and not amb:
+                    rec('select#post.best_ranked_mutually_unassociated_features', list(r5[1]) == cur[:n_best], 'user-supplied filters %r: returned %r, recomputation %r' % (kinds, list(r5[1]), cur[:n_best]), dict(dtype='float', default_measures=False, filters=kinds))
+                elif r5[0] != 'ok':
+                    rec('select#raises.nothing_on_valid_input', False, 'filters %r: %s' % (kinds, r5[0]), dict(default_measures=False))
     return recs
 
 
